@@ -139,6 +139,7 @@ class Replayer:
         ret = None
         CALLS.clear()
         dispatched = None
+        self.last_dispatch = None
         with warnings.catch_warnings(record=True) as w:
             warnings.simplefilter("always")
             try:
@@ -149,6 +150,7 @@ class Replayer:
             except ValueError as ex:
                 err = "ValueError"
                 self.msg = str(ex)
+                dispatched = self.last_dispatch
         nwarn = sum(1 for x in w if issubclass(x.category, PluginOverwriteWarning))
         exp_err = "ValueError" if any(s["err"] for s in e["steps"]) else ""
         exp_warn = sum(1 for s in e["steps"] if s["warned"])
@@ -226,7 +228,7 @@ class Replayer:
                 elif e["op"] == "set":
                     {"megacomplex": mreg.set_megacomplex_plugin, "data_io": dio.set_data_plugin, "project_io": pio.set_project_plugin}[self.kind](k, e["arg"])
                 else:
-                    dispatched = self._dispatch(k, dio, pio)
+                    dispatched = self.last_dispatch = self._dispatch(k, dio, pio)    # kept also when the lookup below raises (unknown key)
                     ret = {"megacomplex": mreg.get_megacomplex, "data_io": dio.get_data_io, "project_io": pio.get_project_io}[self.kind](k)
                     known = {"megacomplex": mreg.is_known_megacomplex, "data_io": dio.is_known_data_format, "project_io": pio.is_known_project_format}[self.kind](k)
                     assert known
@@ -279,7 +281,7 @@ def replay_edges(chk: Check, raw_edges, kind, classes, level, limit=None, rng=No
         keep = [e for e in edges if e["op"] != "lookup"]
         look = [e for e in edges if e["op"] == "lookup"]
         rng.shuffle(look)
-        edges = keep + look[: max(0, limit - len(keep))]
+        edges = keep + look[: max(600, limit - len(keep))]      # lookups carry the dispatch checks: never sample them away
         chk.exhaustive = False
     with tempfile.TemporaryDirectory(prefix="verif_c19_") as td:
         rp = Replayer(chk, kind, classes, level, Path(td))
@@ -307,7 +309,9 @@ def run(tier: str, replay=None) -> int:
     ]
     if replay:
         return _replay_one(chk, replay)
-    short, dotted = ["a", "b"], ["x.y"]
+    # short names that differ only in case are different keys (an inferred format is the extension as written); one of the dotted names a
+    # user may try to register is the full name of a plugin class, i.e. possibly a key the registry already holds
+    short, dotted = ["a", "A"], ["x.y", "m.C1"]
     if tier == "quick":
         plans = [("megacomplex", ["m.C1", "m.C2"], 5), ("data_io", ["m.C1", "m.C2"], 3)]
         pub_limit = 1500
